@@ -65,15 +65,31 @@ enum Case {
 
 fn case_json(c: &Case) -> Value {
     match c {
-        Case::LockStep { machines, pf, bf, seed, batches, framing } => json!({
+        Case::LockStep {
+            machines,
+            pf,
+            bf,
+            seed,
+            batches,
+            framing,
+        } => json!({
             "kind": "lockstep", "machines": mach::enc_all(machines),
             "machines_readable": machines.iter().map(mach::describe).collect::<Vec<_>>(),
             "pf_bits": pf.to_bits(), "bf_bits": bf.to_bits(), "fracs": [pf, bf], "seed": seed, "batches": batches, "framing": framing}),
-        Case::StartArgs { bytes, pf_bits, bf_bits, what } => json!({
+        Case::StartArgs {
+            bytes,
+            pf_bits,
+            bf_bits,
+            what,
+        } => json!({
             "kind": "start_args", "bytes_hex": hex::encode(bytes), "pf_bits": pf_bits, "bf_bits": bf_bits,
             "fracs": [f64::from_bits(*pf_bits).to_string(), f64::from_bits(*bf_bits).to_string()], "what": what}),
-        Case::NullPointers { machines } => json!({"kind": "null_pointers", "machines": mach::enc_all(machines)}),
-        Case::Leak { machines, cycles } => json!({"kind": "leak", "machines": mach::enc_all(machines), "cycles": cycles}),
+        Case::NullPointers { machines } => {
+            json!({"kind": "null_pointers", "machines": mach::enc_all(machines)})
+        }
+        Case::Leak { machines, cycles } => {
+            json!({"kind": "leak", "machines": mach::enc_all(machines), "cycles": cycles})
+        }
     }
 }
 fn case_from(v: &Value) -> Option<Case> {
@@ -153,7 +169,12 @@ fn flat_ref(a: &TriggerAction) -> Flat {
             0,
             0,
         ),
-        TriggerAction::SendPadding { timeout, bypass, replace, machine } => (
+        TriggerAction::SendPadding {
+            timeout,
+            bypass,
+            replace,
+            machine,
+        } => (
             1,
             machine.into_raw(),
             *bypass,
@@ -164,7 +185,13 @@ fn flat_ref(a: &TriggerAction) -> Flat {
             0,
             0,
         ),
-        TriggerAction::BlockOutgoing { timeout, duration, bypass, replace, machine } => (
+        TriggerAction::BlockOutgoing {
+            timeout,
+            duration,
+            bypass,
+            replace,
+            machine,
+        } => (
             2,
             machine.into_raw(),
             *bypass,
@@ -175,7 +202,11 @@ fn flat_ref(a: &TriggerAction) -> Flat {
             duration.as_secs(),
             duration.subsec_nanos(),
         ),
-        TriggerAction::UpdateTimer { duration, replace, machine } => (
+        TriggerAction::UpdateTimer {
+            duration,
+            replace,
+            machine,
+        } => (
             3,
             machine.into_raw(),
             false,
@@ -205,10 +236,29 @@ fn flat_ffi(a: &MaybenotAction) -> Flat {
             0,
             0,
         ),
-        MaybenotAction::SendPadding { machine, timeout, replace, bypass } => {
-            (1, machine, bypass, replace, 9, timeout.secs, timeout.nanos, 0, 0)
-        }
-        MaybenotAction::BlockOutgoing { machine, timeout, replace, bypass, duration } => (
+        MaybenotAction::SendPadding {
+            machine,
+            timeout,
+            replace,
+            bypass,
+        } => (
+            1,
+            machine,
+            bypass,
+            replace,
+            9,
+            timeout.secs,
+            timeout.nanos,
+            0,
+            0,
+        ),
+        MaybenotAction::BlockOutgoing {
+            machine,
+            timeout,
+            replace,
+            bypass,
+            duration,
+        } => (
             2,
             machine,
             bypass,
@@ -219,9 +269,21 @@ fn flat_ffi(a: &MaybenotAction) -> Flat {
             duration.secs,
             duration.nanos,
         ),
-        MaybenotAction::UpdateTimer { machine, duration, replace } => {
-            (3, machine, false, replace, 9, 0, 0, duration.secs, duration.nanos)
-        }
+        MaybenotAction::UpdateTimer {
+            machine,
+            duration,
+            replace,
+        } => (
+            3,
+            machine,
+            false,
+            replace,
+            9,
+            0,
+            0,
+            duration.secs,
+            duration.nanos,
+        ),
     }
 }
 
@@ -298,21 +360,38 @@ impl C20 {
         let t_after = Instant::now();
         maybenot_ffi::verif::set_seed(None);
         let Some(ffi) = ffi else {
-            v.push(("start-rejected".into(), format!("maybenot_start returned {rc} for machines and fractions the Rust API accepts")));
+            v.push((
+                "start-rejected".into(),
+                format!(
+                    "maybenot_start returned {rc} for machines and fractions the Rust API accepts"
+                ),
+            ));
             return v;
         };
         // machines as the C API parsed them (string round trip is C11's business)
-        let parsed: Vec<Machine> = s.lines().filter_map(|l| Machine::from_str(l).ok()).collect();
+        let parsed: Vec<Machine> = s
+            .lines()
+            .filter_map(|l| Machine::from_str(l).ok())
+            .collect();
         let (Ok(mut ra), Ok(mut rb)) = (
             RefFw::new(parsed.clone(), pf, bf, t_before, ref_rng(seed)),
             RefFw::new(parsed.clone(), pf, bf, t_after, ref_rng(seed)),
         ) else {
-            v.push(("start-accepted-invalid".into(), "maybenot_start accepted what Framework::new rejects".into()));
+            v.push((
+                "start-accepted-invalid".into(),
+                "maybenot_start accepted what Framework::new rejects".into(),
+            ));
             return v;
         };
         let n = unsafe { maybenot_num_machines(ffi.p) };
         if n != parsed.len() {
-            v.push(("num-machines".into(), format!("maybenot_num_machines = {n}, machines given: {}", parsed.len())));
+            v.push((
+                "num-machines".into(),
+                format!(
+                    "maybenot_num_machines = {n}, machines given: {}",
+                    parsed.len()
+                ),
+            ));
             return v;
         }
         let asz = std::mem::size_of::<MaybenotAction>();
@@ -321,7 +400,8 @@ impl C20 {
             let now = if b.at_ns >= 0 {
                 base + Duration::from_nanos(b.at_ns as u64)
             } else {
-                base.checked_sub(Duration::from_nanos((-b.at_ns) as u64)).unwrap_or(t_before)
+                base.checked_sub(Duration::from_nanos((-b.at_ns) as u64))
+                    .unwrap_or(t_before)
             };
             let evs: Vec<TriggerEvent> = b.ev.iter().map(|(t, id)| trig(*t, *id)).collect();
             let wa: Vec<Flat> = ra.trigger_events(&evs, now).map(flat_ref).collect();
@@ -332,14 +412,13 @@ impl C20 {
                 stats.inc("ambiguous_skipped");
                 return v;
             }
-            let cev: Vec<MaybenotEvent> = b
-                .ev
-                .iter()
-                .map(|(t, id)| MaybenotEvent {
-                    event_type: ev_type(*t),
-                    machine: *id as usize,
-                })
-                .collect();
+            let cev: Vec<MaybenotEvent> =
+                b.ev.iter()
+                    .map(|(t, id)| MaybenotEvent {
+                        event_type: ev_type(*t),
+                        machine: *id as usize,
+                    })
+                    .collect();
             let slots = GUARD + n + GUARD;
             let mut buf: Vec<MaybeUninit<MaybenotAction>> = Vec::with_capacity(slots);
             unsafe {
@@ -355,7 +434,13 @@ impl C20 {
                 cev.as_ptr()
             };
             let r = catch_sut(|| unsafe {
-                maybenot_on_events(ffi.p, evp, cev.len(), buf.as_mut_ptr().add(GUARD), &mut count) as u32
+                maybenot_on_events(
+                    ffi.p,
+                    evp,
+                    cev.len(),
+                    buf.as_mut_ptr().add(GUARD),
+                    &mut count,
+                ) as u32
             });
             maybenot_ffi::verif::set_now(None);
             stats.inc("calls");
@@ -364,22 +449,35 @@ impl C20 {
                 Ok(rc) => rc,
                 Err(p) => {
                     std::mem::forget(ffi); // state unknown after a panic
-                    v.push((panic_class(&p), format!("maybenot_on_events panicked in batch {bi}: {p}")));
+                    v.push((
+                        panic_class(&p),
+                        format!("maybenot_on_events panicked in batch {bi}: {p}"),
+                    ));
                     return v;
                 }
             };
             if rc != 0 {
-                v.push(("on-events-error".into(), format!("batch {bi}: maybenot_on_events returned {rc}")));
+                v.push((
+                    "on-events-error".into(),
+                    format!("batch {bi}: maybenot_on_events returned {rc}"),
+                ));
                 return v;
             }
             let raw = unsafe { std::slice::from_raw_parts(buf.as_ptr() as *const u8, slots * asz) };
-            let untouched = |from: usize, to: usize| raw[from * asz..to * asz].iter().all(|b| *b == CANARY);
+            let untouched =
+                |from: usize, to: usize| raw[from * asz..to * asz].iter().all(|b| *b == CANARY);
             if !untouched(0, GUARD) || !untouched(GUARD + n, slots) {
-                v.push(("out-of-bounds-write".into(), format!("batch {bi}: bytes outside the {n} output slots were modified")));
+                v.push((
+                    "out-of-bounds-write".into(),
+                    format!("batch {bi}: bytes outside the {n} output slots were modified"),
+                ));
                 return v;
             }
             if count > n {
-                v.push(("count-over-num-machines".into(), format!("batch {bi}: count {count} exceeds num_machines {n}")));
+                v.push((
+                    "count-over-num-machines".into(),
+                    format!("batch {bi}: count {count} exceeds num_machines {n}"),
+                ));
                 return v;
             }
             if !untouched(GUARD + count, GUARD + n) {
@@ -411,11 +509,23 @@ impl C20 {
 
     fn run(&self, c: &Case, stats: &mut Stats) -> Vec<(String, String)> {
         match c {
-            Case::LockStep { machines, pf, bf, seed, batches, framing } => {
+            Case::LockStep {
+                machines,
+                pf,
+                bf,
+                seed,
+                batches,
+                framing,
+            } => {
                 stats.inc("lockstep_runs");
                 self.lockstep(machines, *pf, *bf, *seed, batches, *framing, stats)
             }
-            Case::StartArgs { bytes, pf_bits, bf_bits, what } => {
+            Case::StartArgs {
+                bytes,
+                pf_bits,
+                bf_bits,
+                what,
+            } => {
                 stats.inc("start_arg_cases");
                 stats.fault(&format!("start.{what}"));
                 let (pf, bf) = (f64::from_bits(*pf_bits), f64::from_bits(*bf_bits));
@@ -423,19 +533,25 @@ impl C20 {
                 let want: u32 = match std::str::from_utf8(bytes) {
                     Err(_) => 1,
                     Ok(s) => {
-                        let ms: Result<Vec<Machine>, _> = s.lines().map(Machine::from_str).collect();
+                        let ms: Result<Vec<Machine>, _> =
+                            s.lines().map(Machine::from_str).collect();
                         match ms {
                             Err(_) => 2,
-                            Ok(ms) => match Framework::new(ms, pf, bf, Instant::now(), ref_rng(1)) {
-                                Err(_) => 3,
-                                Ok(_) => 0,
-                            },
+                            Ok(ms) => {
+                                match Framework::new(ms, pf, bf, Instant::now(), ref_rng(1)) {
+                                    Err(_) => 3,
+                                    Ok(_) => 0,
+                                }
+                            }
                         }
                     }
                 };
                 let r = catch_sut(|| start(bytes, pf, bf));
                 match r {
-                    Err(p) => vec![(panic_class(&p), format!("maybenot_start panicked ({what}): {p}"))],
+                    Err(p) => vec![(
+                        panic_class(&p),
+                        format!("maybenot_start panicked ({what}): {p}"),
+                    )],
                     Ok((rc, _ffi)) => {
                         if rc == u32::MAX {
                             return vec![]; // interior NUL: not expressible as a C string
@@ -457,16 +573,23 @@ impl C20 {
                 let mut v = vec![];
                 let s = machines_string(machines, 0);
                 let c = CString::new(s.clone()).unwrap();
-                let r = unsafe { maybenot_start(c.as_ptr(), 0.0, 0.0, std::ptr::null_mut()) } as u32;
+                let r =
+                    unsafe { maybenot_start(c.as_ptr(), 0.0, 0.0, std::ptr::null_mut()) } as u32;
                 if r != 4 {
                     v.push(("null-out".into(), format!("maybenot_start with a null out pointer returned {r}, expected 4 (NullPointer)")));
                 }
                 if unsafe { maybenot_num_machines(std::ptr::null_mut()) } != 0 {
-                    v.push(("null-num-machines".into(), "maybenot_num_machines(null) is not 0".into()));
+                    v.push((
+                        "null-num-machines".into(),
+                        "maybenot_num_machines(null) is not 0".into(),
+                    ));
                 }
                 let (rc, ffi) = start(s.as_bytes(), 0.0, 0.0);
                 let Some(ffi) = ffi else {
-                    v.push(("start-rejected".into(), format!("maybenot_start returned {rc}")));
+                    v.push((
+                        "start-rejected".into(),
+                        format!("maybenot_start returned {rc}"),
+                    ));
                     return v;
                 };
                 let n = machines.len();
@@ -474,13 +597,44 @@ impl C20 {
                     event_type: MaybenotEventType::NormalSent,
                     machine: 0,
                 }];
-                let mut buf: Vec<MaybeUninit<MaybenotAction>> = (0..n + 1).map(|_| MaybeUninit::uninit()).collect();
+                let mut buf: Vec<MaybeUninit<MaybenotAction>> =
+                    (0..n + 1).map(|_| MaybeUninit::uninit()).collect();
                 let mut count = 77usize;
-                let cases: [(&str, *mut MaybenotFramework, *const MaybenotEvent, *mut MaybeUninit<MaybenotAction>, *mut usize); 4] = [
-                    ("instance", std::ptr::null_mut(), ev.as_ptr(), buf.as_mut_ptr(), &mut count),
-                    ("events", ffi.p, std::ptr::null(), buf.as_mut_ptr(), &mut count),
-                    ("actions", ffi.p, ev.as_ptr(), std::ptr::null_mut(), &mut count),
-                    ("count", ffi.p, ev.as_ptr(), buf.as_mut_ptr(), std::ptr::null_mut()),
+                let cases: [(
+                    &str,
+                    *mut MaybenotFramework,
+                    *const MaybenotEvent,
+                    *mut MaybeUninit<MaybenotAction>,
+                    *mut usize,
+                ); 4] = [
+                    (
+                        "instance",
+                        std::ptr::null_mut(),
+                        ev.as_ptr(),
+                        buf.as_mut_ptr(),
+                        &mut count,
+                    ),
+                    (
+                        "events",
+                        ffi.p,
+                        std::ptr::null(),
+                        buf.as_mut_ptr(),
+                        &mut count,
+                    ),
+                    (
+                        "actions",
+                        ffi.p,
+                        ev.as_ptr(),
+                        std::ptr::null_mut(),
+                        &mut count,
+                    ),
+                    (
+                        "count",
+                        ffi.p,
+                        ev.as_ptr(),
+                        buf.as_mut_ptr(),
+                        std::ptr::null_mut(),
+                    ),
                 ];
                 for (name, a, b, c2, d) in cases {
                     let r = catch_sut(|| unsafe { maybenot_on_events(a, b, 1, c2, d) as u32 });
@@ -491,7 +645,10 @@ impl C20 {
                     }
                 }
                 if count != 77 {
-                    v.push(("null-on-events".into(), "count was written although an error was returned".into()));
+                    v.push((
+                        "null-on-events".into(),
+                        "count was written although an error was returned".into(),
+                    ));
                 }
                 v
             }
@@ -510,7 +667,8 @@ impl C20 {
                                 machine: (i as usize) % (n + 1),
                             })
                             .collect();
-                        let mut buf: Vec<MaybeUninit<MaybenotAction>> = (0..n).map(|_| MaybeUninit::uninit()).collect();
+                        let mut buf: Vec<MaybeUninit<MaybenotAction>> =
+                            (0..n).map(|_| MaybeUninit::uninit()).collect();
                         let mut count = 0usize;
                         // a dangling, aligned pointer is fine for zero machines
                         let bp = if n == 0 {
@@ -552,7 +710,16 @@ impl C20 {
             mc.p_trans = *g.pick(&[0.3, 0.5, 0.8]);
             mc.p_counter = 0.3;
             mc.p_limit = 0.3;
-            mc.times_us = vec![0.0, 1.0, 999.0, 1000.0, 1_000_000.0, 1_500_000.5, 86_400_000_000.0, 2_000_001.0];
+            mc.times_us = vec![
+                0.0,
+                1.0,
+                999.0,
+                1000.0,
+                1_000_000.0,
+                1_500_000.5,
+                86_400_000_000.0,
+                2_000_001.0,
+            ];
             let n = if g.chance(0.05) { 0 } else { 1 + g.usize(max) };
             (0..n).map(|_| mach::gen_machine(g, &mc)).collect()
         };
@@ -640,11 +807,25 @@ impl C20 {
                         "corrupt_machine"
                     }
                     7 => {
-                        pf = *g.pick(&[f64::NAN, f64::INFINITY, f64::NEG_INFINITY, -1e-300, 1.0000000000000002, 2.0]);
+                        pf = *g.pick(&[
+                            f64::NAN,
+                            f64::INFINITY,
+                            f64::NEG_INFINITY,
+                            -1e-300,
+                            1.0000000000000002,
+                            2.0,
+                        ]);
                         "bad_padding_frac"
                     }
                     8 => {
-                        bf = *g.pick(&[f64::NAN, f64::INFINITY, f64::NEG_INFINITY, -1e-300, 1.0000000000000002, 2.0]);
+                        bf = *g.pick(&[
+                            f64::NAN,
+                            f64::INFINITY,
+                            f64::NEG_INFINITY,
+                            -1e-300,
+                            1.0000000000000002,
+                            2.0,
+                        ]);
                         "bad_blocking_frac"
                     }
                     9 => {
@@ -707,6 +888,7 @@ impl Engine for C20 {
                 "C caller: Rust harness with canary buffers and counting allocator",
             ],
             totality: true,
+            cpu_limit_s: crate::sup::CASE_CPU_LIMIT_S,
             exhaustive: false,
         }
     }
@@ -732,7 +914,9 @@ impl Engine for C20 {
             h.bytes(cj.to_string().as_bytes());
             stats.shapes.insert(h.0);
         }
-        v.into_iter().map(|(cl, d)| Violation::new(&cl, d, Some(cj.clone()))).collect()
+        v.into_iter()
+            .map(|(cl, d)| Violation::new(&cl, d, Some(cj.clone())))
+            .collect()
     }
     fn replay(&self, case: &Value, stats: &mut Stats) -> Vec<Violation> {
         match case_from(case) {
@@ -749,7 +933,15 @@ impl Engine for C20 {
             return vec![];
         };
         let mut out = vec![];
-        if let Case::LockStep { machines, pf, bf, seed, batches, framing } = c {
+        if let Case::LockStep {
+            machines,
+            pf,
+            bf,
+            seed,
+            batches,
+            framing,
+        } = c
+        {
             let mk = |machines: Vec<Machine>, batches: Vec<Batch>, framing: u8| Case::LockStep {
                 machines,
                 pf,
